@@ -1,8 +1,12 @@
 // C09 LOCKSTEP harness for pika::latch on plain std::threads (default agent): count_down(n),
-// wait(), try_wait() under controller-chosen interleavings of the hooked steps
+// wait(), try_wait(), arrive_and_wait(n) under controller-chosen interleavings of the hooked steps
 //   911 counter_ -= n      912 first notify (lock, notified_ = true, notify_one)   913 next notify_one
 //   914 wait(): lock, test, enqueue     9001 agent suspend     916 woken, re-lock and re-test
 //   915 try_wait load
+//   917 arrive_and_wait: the whole critical section (lock, fetch_sub, then enqueue+unlock, or
+//       notified_ = true + first notify_one + unlock) — the hook sits BEFORE the lock, so the last
+//       arriver's two model steps (AW0, AWN: the lock is held in between) are one scheduled entry
+//   918 arrive_and_wait: next notify_one (before re-locking)
 // The extracted model (Model/Latch.v) replays the schedule and predicts the site of every step,
 // all try_wait results and who returned.  The total of the decrements equals the count, so every
 // waiter must return (otherwise MONITOR latch_lockstep:stuck).
@@ -14,6 +18,13 @@
 #include <string>
 #include <thread>
 #include <vector>
+
+// unhooked view of the counter for the monitor (members are protected)
+struct latch_view : pika::latch
+{
+    using pika::latch::latch;
+    std::ptrdiff_t count() const { return counter_.load(); }
+};
 
 int main(int argc, char** argv)
 {
@@ -46,16 +57,25 @@ int main(int argc, char** argv)
             if (ops[t].empty()) ops[t].push_back({'t', 0});
             // a thread never waits before its own decrements (it would block forever): move waits to the end
             std::stable_partition(ops[t].begin(), ops[t].end(), [](auto const& o) { return o.first != 'w'; });
+            // arrive_and_wait(n) = decrement + wait: only a thread's LAST decrement may become one
+            if (rng.chance(2, 5))
+                for (int k = (int) ops[t].size() - 1; k >= 0; --k)
+                    if (ops[t][k].first == 'c')
+                    {
+                        ops[t][k].first = 'a';
+                        break;
+                    }
             std::ostringstream p;
             for (size_t k = 0; k < ops[t].size(); ++k)
             {
                 p << (k ? "," : "") << ops[t][k].first;
-                if (ops[t][k].first == 'c') p << ops[t][k].second;
+                if (ops[t][k].first == 'c' || ops[t][k].first == 'a') p << ops[t][k].second;
             }
             progs[t] = p.str();
         }
-        pika::latch L(C);
-        vctl::Controller ctl(T, 911, 916);
+        latch_view L(C);
+        vctl::Controller ctl(T, 911, 918);
+        std::vector<int> early(T, 0);
         std::vector<std::string> tries(T);
         std::vector<int> rets(T, 0);
         std::vector<std::thread> th;
@@ -66,9 +86,16 @@ int main(int argc, char** argv)
                 {
                     if (o.first == 'c')
                         L.count_down(o.second);
+                    else if (o.first == 'a')
+                    {
+                        L.arrive_and_wait(o.second);
+                        if (L.count() > 0) ++early[t];
+                        ++rets[t];
+                    }
                     else if (o.first == 'w')
                     {
                         L.wait();
+                        if (L.count() > 0) ++early[t];
                         ++rets[t];
                     }
                     else
@@ -125,6 +152,14 @@ int main(int argc, char** argv)
             std::_Exit(0);
         }
         for (auto& x : th) x.join();
+        for (int t = 0; t < T; ++t)
+            if (early[t])
+            {
+                std::printf("MONITOR latch_lockstep:early_return case=%d count=%d thread=%d: wait/arrive_and_wait returned while the counter was > 0 (sched %s)\n",
+                    cs, C, t, sched.str().c_str());
+                std::fflush(stdout);
+                std::_Exit(0);
+            }
         std::ostringstream in, out;
         in << "IN LLOCK " << cs << " " << C << " " << T;
         for (auto& p : progs) in << " " << p;
